@@ -17,7 +17,11 @@ reverse-applying proposed_fixes/C05_F1.diff, C05_F23.diff to the current edge_ma
 the corpus witnesses plus a sample of cases are evaluated with fixed_len = fixed_box = false
 against it; `selector_F1` / `selector_strict_box` are evaluated in Coq (case CSel) and
 compared with the Python selectors of the oracle.  Kind "chk": the domain of generate_pafs
-(`in_domain`; model None <=> the code raises IndexError / RuntimeError).
+(`in_domain`; model None <=> the code raises IndexError / RuntimeError).  Kind "big" (round 5):
+large images (700..1300 px), long edges with float32 (non-dyadic) endpoints, strides 2..8; the
+model is evaluated on a sample of cells (EdgeMaps.sample_cell, Props.c05_sampled_cell_is_cell_of_field)
+and compared within the float32 rounding bound of the code's difference form (see "large images"
+below); the property's clauses are evaluated on every cell of the output.
 """
 from __future__ import annotations
 
@@ -25,6 +29,7 @@ import importlib.util
 import json
 import math
 import shutil
+import struct
 import subprocess
 from fractions import Fraction as F
 
@@ -280,6 +285,8 @@ def term(c, fixed_len, fixed_box, fixed_box_pipe=None):
     if fixed_box_pipe is None:
         fixed_box_pipe = fixed_box
     k = c["kind"]
+    if k == "big":
+        return big_term(c, fixed_len, fixed_box, fixed_box_pipe)
     sg = core.cq(c["sigma"])
     fb = core.cbool(fixed_box)
     fl = core.cbool(fixed_len)
@@ -364,6 +371,8 @@ def impl_generate(em, torch, samples, n_nodes, H, W, sigma, s, edges, flat, dtyp
 def run_impl(c, mods):
     torch, em = mods
     k = c["kind"]
+    if k == "big":
+        return run_big(c, mods)
     sg = float(c["sigma"])
     dt, edt = c.get("dtype", "float32"), c.get("edge_dtype", "float32")
     if k == "chk":                                    # None = the code raises (kind of error as documented)
@@ -461,6 +470,8 @@ def leaf_kp(m, v):                    # kp vs [x, y] floats (NaN = missing coord
 
 def compare(c, model, out):
     k = c["kind"]
+    if k == "big":
+        return compare_big(c, model, out)
     if k == "dist":
         return cmp_nested(model, out.tolist(), leaf_q, 3)
     if k == "edgemaps":
@@ -771,6 +782,8 @@ def oracle_dist(c, out, mods):
 
 
 def oracle(c, out, mods):
+    if c["kind"] == "big":
+        return oracle_big(c, out, mods)
     if c["kind"] == "multi":
         return oracle_multi(c, out, mods)
     if c["kind"] == "pafs":
@@ -798,6 +811,265 @@ def oracle(c, out, mods):
     return []
 
 
+# ---------------------------------------------------------------- large images (round 5)
+# The streams above stay below 32 px with dyadic coordinates: every float32 operation of
+# distance_to_edge is then exact or nearly so, and the flat tolerance ATOL/RTOL is all that is
+# needed.  That tolerance is only valid in that SMALL regime (|coordinates| <~ 64, dyadic).  The
+# stream below is the large-magnitude regime: images of 700..1300 px, strides 2..8, edges
+# hundreds of px long, endpoints that are arbitrary float32 numbers (non-dyadic sub-pixel).
+#
+# Tolerance, derived from float32 rounding (unit roundoff U = 2^-24) of the code's OWN formula
+# (difference form: r = p - src, d = dst - src, t = clamp((r.d)/|d|^2), D2 = |t d - r|^2), with
+# R = |p - src|, L = |d|:
+#   r, d: one rounding each, relative U per component;
+#   r.d: 2 products + 1 sum on perturbed operands: |error| <= 4 U R L;  |d|^2: relative 4 U;
+#   t: error <= 4 U R/L + 5 U |t| <= 9 U R/L (|t| <= R/L before the clamp; the clamp does not increase it)
+#     -> the closest point t d moves ALONG the edge by <= 9 U R;
+#   t d_c (d_c perturbed, product rounded): <= 2 U L per component; r_c: <= U R per component;
+#   the last subtraction, the squares and their sum: relative 3 U of D2 = 1.5 U D <= 1.5 U R in distance.
+# Sum: the computed squared distance is (D')^2 with |D' - D| <= EPS_K U max(R, L), EPS_K = 16
+# (9 + sqrt2 + 2 sqrt2 + 1.5 < 15).  A formula that cancels (expanded quadratic form) is off by
+# ~ U R^2 in D2, i.e. 0.1..0.5 px^2 here: three orders of magnitude beyond this bound.
+# exp and the unit vector add a few U relative: inside RTOL.  The exact value comes from the Coq
+# model (correspondence, on a sample of cells: EdgeMaps.sample_cell) and, independently, from the
+# closed form in float64 on the float32 endpoints (oracle, every cell of the output).
+U32 = 2.0 ** -24
+EPS_K = 16.0
+
+
+def f32(x):
+    """The float32 number nearest to x, as an exact Fraction (the tensor holds exactly this)."""
+    return F(struct.unpack("f", struct.pack("f", float(x)))[0])
+
+
+def eps_pos(R, L):
+    return EPS_K * U32 * max(R, L, 1.0)
+
+
+def gen_big_edge(rng, H, W, s):
+    """Two endpoints inside the image, 250+ px apart.  60 %: the line passes through many grid points
+    (lattice direction (p,q)*s, endpoints pushed beyond two grid points by non-dyadic fractions, then
+    rounded to float32: the grid points are on the segment to within ~1e-4 px); else arbitrary."""
+    for _ in range(200):
+        if rng.random() < 0.6:
+            p, q = rng.randint(-5, 5), rng.randint(-5, 5)
+            if (p, q) == (0, 0) or math.gcd(abs(p), abs(q)) != 1:
+                continue
+            step = math.hypot(p * s, q * s)
+            k = int(rng.uniform(250, 1100) / step)
+            gx, gy = s * rng.randrange(0, -(-W // s)), s * rng.randrange(0, -(-H // s))
+            hx, hy = gx + k * p * s, gy + k * q * s
+            al, be = rng.uniform(0.001, 0.03), rng.uniform(0.001, 0.03)
+            a = (gx - al * (hx - gx), gy - al * (hy - gy))
+            b = (hx + be * (hx - gx), hy + be * (hy - gy))
+        else:
+            a = (rng.uniform(0, W - 1), rng.uniform(0, H - 1))
+            b = (rng.uniform(0, W - 1), rng.uniform(0, H - 1))
+        if (all(0 <= v[0] <= W - 1 and 0 <= v[1] <= H - 1 for v in (a, b))
+                and math.hypot(a[0] - b[0], a[1] - b[1]) >= 250):
+            return (f32(a[0]), f32(a[1])), (f32(b[0]), f32(b[1]))
+    return (f32(1.3), f32(2.7)), (f32(W - 2.1), f32(H - 3.3))
+
+
+def gen_big_case(rng):
+    s = rng.choice([2, 4, 4, 8])
+    H, W = rng.randint(700, 1100), rng.randint(800, 1300)
+    if s == 2:
+        H, W = min(H, 900), min(W, 1000)
+    if rng.random() < 0.5:
+        H, W = s * (H // s), s * (W // s)
+    n_nodes = rng.choice([2, 2, 3])
+    edges = [(0, 1)] if n_nodes == 2 else rng.choice([[(0, 1), (1, 2)], [(0, 1), (0, 2)], [(1, 0), (2, 1)]])
+    if n_nodes == 2 and rng.random() < 0.25:
+        edges = [(1, 0)]
+    insts = []
+    for _ in range(rng.choice([1, 1, 2])):
+        a, b = gen_big_edge(rng, H, W, s)
+        inst = [a, b]
+        if n_nodes == 3:
+            k = rng.random()
+            if k < 0.15:
+                inst.append((None, None))
+            elif k < 0.3:                                # a short edge far from the origin
+                inst.append((f32(float(b[0]) + rng.uniform(-6, 6)), f32(float(b[1]) + rng.uniform(-6, 6))))
+            else:
+                inst.append(gen_big_edge(rng, H, W, s)[0])
+        insts.append(inst)
+    c = {"kind": "big", "H": H, "W": W, "s": s, "sigma": rng.choice(SIGMAS + [F(3, 4)]), "edges": edges,
+         "insts": insts, "n_nodes": n_nodes, "flat": rng.random() < 0.7, "via_pipe": rng.random() < 0.25}
+    if rng.random() < 0.15:
+        c["dtype"] = "float64"
+    c["cells"] = big_sample_cells(rng, c)
+    return c
+
+
+def big_sample_cells(rng, c):
+    """(e, c, i, j): grid cells on / next to each segment, a few px away, beyond both ends, and far away."""
+    H, W, s = c["H"], c["W"], c["s"]
+    h, w = -(-H // s), -(-W // s)
+    out = []
+    for e, (a, b) in enumerate(c["edges"]):
+        ij = set()
+        for inst in c["insts"]:
+            src, dst = inst[a], inst[b]
+            if not (visible(src) and visible(dst)):
+                continue
+            sx, sy, dx, dy = float(src[0]), float(src[1]), float(dst[0] - src[0]), float(dst[1] - src[1])
+            for t in [0.0, 1.0] + [rng.random() for _ in range(7)] + [-4.0 / 300, 1 + 4.0 / 300]:
+                j0, i0 = round((sx + t * dx) / s), round((sy + t * dy) / s)
+                ij.add((i0, j0))
+                for _ in range(2):
+                    ij.add((i0 + rng.randint(-3, 3), j0 + rng.randint(-3, 3)))
+        cells = sorted((i, j) for i, j in ij if 0 <= i < h and 0 <= j < w)
+        cells += [(rng.randrange(h), rng.randrange(w)) for _ in range(3)]
+        rng.shuffle(cells)
+        for i, j in cells[:26]:
+            out += [(e, 0, i, j), (e, 1, i, j)]
+    return out
+
+
+def big_term(c, fixed_len, fixed_box, fixed_box_pipe):
+    fb = fixed_box_pipe if c.get("via_pipe") else fixed_box
+    cells = core.clist(c["cells"], lambda q: f"({q[0]}, {q[1]}, {q[2]}, {q[3]})%nat")
+    return (f"CGenAt {core.cbool(fixed_len)} {core.cbool(fb)} {core.clist([c['insts']], cinsts)} {c['H']}%nat "
+            f"{c['W']}%nat {core.cq(c['sigma'])} {c['s']}%nat {cedges(c['edges'])} {cells}")
+
+
+def run_big(c, mods):
+    torch, em = mods
+    dts = (c.get("dtype", "float32"), "float32")
+    if c.get("via_pipe"):
+        return impl_pipe(em, torch, [(c["H"], c["W"], [c["insts"]], 1)], c["n_nodes"], c["sigma"], c["s"],
+                         c["edges"], c["flat"], *dts)[0]
+    return impl_generate(em, torch, [c["insts"]], c["n_nodes"], c["H"], c["W"], c["sigma"], c["s"], c["edges"],
+                         c["flat"], *dts)
+
+
+def weight_interval(D, eps, sigma):
+    """Bounds of exp(-(D'^2)^2 / (2 sigma^2)) for |D' - D| <= eps (the code's weight of a squared distance)."""
+    two = 2.0 * sigma * sigma
+    lo = math.exp(-min(745.0, (D + eps) ** 4 / two))
+    hi = math.exp(-min(745.0, max(0.0, D - eps) ** 4 / two))
+    return lo * (1 - RTOL), hi * (1 + RTOL)
+
+
+def compare_big(c, model, out):
+    """Sampled cells of the output against the exact model, within the rounding bound of the code's formula."""
+    if model is None:
+        return "the model says the case is outside the domain of generate_pafs"
+    H, W, s, sg = c["H"], c["W"], c["s"], float(c["sigma"])
+    h, w, E = -(-H // s), -(-W // s), len(c["edges"])
+    want = (2 * E, h, w) if c["flat"] else (E, 2, h, w)
+    if tuple(out.shape) != want:
+        return f"shape {tuple(out.shape)} != {want}"
+    o4 = out.reshape(E, 2, h, w)
+    nodes = [(float(p[0]), float(p[1])) for inst in c["insts"] for p in inst if visible(p)]
+    for (e, comp, i, j), m in zip(c["cells"], model):
+        if m is None:
+            return f"model: cell {(e, comp, i, j)} outside the shape"
+        v = float(o4[e, comp, i, j])
+        R = max(math.hypot(j * s - x, i * s - y) for x, y in nodes) if nodes else 1.0
+        lo = hi = 0.0
+        for t in m:
+            a, n, l2 = q2f(t[0]), q2f(t[1]), q2f(t[2])
+            D = math.sqrt(math.sqrt(max(0.0, -a * 2 * sg * sg)))      # a = -(D^2)^2 / (2 sigma^2)
+            wl, wh = weight_interval(D, eps_pos(R, math.sqrt(l2)), sg)
+            u = n / math.sqrt(l2)
+            lo += min(wl * u, wh * u)
+            hi += max(wl * u, wh * u)
+        if math.isnan(v) or not (lo - ATOL <= v <= hi + ATOL):
+            return (f"cell (edge {e}, component {comp}, row {i}, col {j}) = image point ({j * s},{i * s}): impl {v} "
+                    f"outside [{lo}, {hi}] (exact model within the float32 rounding bound of the difference form)")
+    return None
+
+
+def oracle_big_single(inst, one, c):
+    """The per-animal clauses on EVERY cell of the (E,2,h,w) field of one animal in a large image
+    (numpy, exact distances in float64 from the float32 endpoints)."""
+    import numpy as np
+    H, W, s, sg = c["H"], c["W"], c["s"], float(c["sigma"])
+    h, w = -(-H // s), -(-W // s)
+    ys, xs = np.meshgrid(np.arange(h, dtype=np.float64) * s, np.arange(w, dtype=np.float64) * s, indexing="ij")
+    for e, (a, b) in enumerate(c["edges"]):
+        src, dst = inst[a], inst[b]
+        f = one[e].double().numpy()
+        if degenerate(src, dst):
+            if np.any(f != 0):
+                return f"edge {e} with a missing endpoint / zero length contributes a non-zero field"
+            continue
+        sx, sy = float(src[0]), float(src[1])
+        vx, vy = float(dst[0]) - sx, float(dst[1]) - sy
+        L = math.hypot(vx, vy)
+        ux, uy = vx / L, vy / L
+        rx, ry = xs - sx, ys - sy
+        t = np.clip((rx * vx + ry * vy) / (L * L), 0.0, 1.0)
+        D = np.hypot(t * vx - rx, t * vy - ry)                    # true distance to the closed segment
+        wt = f[0] * ux + f[1] * uy
+        across = f[0] * uy - f[1] * ux
+        tolw = ATOL + RTOL * np.abs(wt)
+        k = int(np.argmax(np.abs(across) - tolw))
+        if abs(across.flat[k]) > tolw.flat[k]:
+            return (f"edge {e} cell {divmod(k, w)}: field ({f[0].flat[k]},{f[1].flat[k]}) is not along the unit "
+                    f"vector source->destination ({ux},{uy})")
+        if wt.min() < -ATOL or wt.max() > 1 + ATOL + RTOL:
+            k = int(np.argmax(np.maximum(-wt, wt - 1)))
+            return f"edge {e} cell {divmod(k, w)}: weight {wt.flat[k]} outside [0,1]"
+        eps = EPS_K * U32 * np.maximum(np.hypot(rx, ry), max(L, 1.0))
+        # weight 1 on the segment (cells within 1e-3 px of it), within the justified tolerance
+        on = D <= 1e-3
+        floor_w = np.exp(-np.minimum(745.0, (D + eps) ** 4 / (2 * sg * sg))) * (1 - RTOL) - ATOL
+        bad = on & (wt < floor_w)
+        if bad.any():
+            k = int(np.argmax(bad))
+            return (f"edge {e} cell {divmod(k, w)} = image point ({xs.flat[k]},{ys.flat[k]}) lies on the segment "
+                    f"(distance {D.flat[k]:.2e} px) but its weight is {wt.flat[k]}, not 1")
+        # non-increasing: every cell against the smallest weight among cells at least 2*eps_max + 1e-6 px nearer
+        order = np.argsort(D, axis=None, kind="stable")
+        d_s, w_s = D.ravel()[order], wt.ravel()[order]
+        run_min = np.minimum.accumulate(w_s)
+        gap = 2 * float(eps.max()) + 1e-6
+        n_closer = np.searchsorted(d_s, d_s - gap, side="left")
+        ref = np.where(n_closer > 0, run_min[np.maximum(n_closer - 1, 0)], np.inf)
+        exc = w_s - ref - 2 * (ATOL + RTOL * w_s)
+        k = int(np.argmax(exc))
+        if exc[k] > 0:
+            k0 = int(np.argmin(w_s[:n_closer[k]]))
+            return (f"edge {e}: weight {w_s[k]} at distance {d_s[k]:.4f} px (cell {divmod(int(order[k]), w)}) exceeds "
+                    f"the weight {w_s[k0]} of the nearer cell {divmod(int(order[k0]), w)} at distance {d_s[k0]:.4f} px "
+                    f"(not non-increasing with distance)")
+    return None
+
+
+def oracle_big(c, out, mods):
+    torch, em = mods
+    H, W, s, edges = c["H"], c["W"], c["s"], c["edges"]
+    h, w, E = -(-H // s), -(-W // s), len(edges)
+    want = (2 * E, h, w) if c["flat"] else (E, 2, h, w)
+    if tuple(out.shape) != want:
+        return [(f"shape {tuple(out.shape)} != {want}", None)]
+    if not bool(torch.isfinite(out).all()):
+        return [("output contains NaN or inf", None)]
+    o4 = out.reshape(E, 2, h, w)
+    fails, total = [], torch.zeros((E, 2, h, w), dtype=torch.float64)
+    single = dict(c, flat=False)
+    for a, inst in enumerate(c["insts"]):
+        one = run_big(dict(single, insts=[inst]), mods)
+        if tuple(one.shape) != (E, 2, h, w) or not bool(torch.isfinite(one).all()):
+            fails.append((f"animal {a} alone: bad shape or non-finite values", None))
+            continue
+        total += one.double()
+        bad = oracle_big_single(inst, one, c)
+        if bad:
+            fails.append((f"animal {a}: {bad}", None))
+    diff = (o4.double() - total).abs()
+    tol = 2 * ATOL + RTOL * total.abs()
+    if bool((diff > tol).any()):
+        idx = int((diff - tol).flatten().argmax())
+        fails.append((f"fields of several animals do not add (flat index {idx}): {float(o4.flatten()[idx])} vs sum "
+                      f"of the single-animal fields {float(total.flatten()[idx])}", None))
+    return fails
+
+
 # ---------------------------------------------------------------- (de)serialisation
 def jp(p):
     return [None if v is None else str(v) for v in p]
@@ -820,6 +1092,9 @@ def case_json(c):
                     "insts": [[jp(p) for p in inst] for inst in c["ex2"]["insts"]]}
     if "pts" in c:
         j["pts"] = [[jp(p) for p in r] for r in c["pts"]]
+    if c["kind"] == "big":
+        j["via_pipe"] = bool(c.get("via_pipe"))
+        j["cells"] = [list(q) for q in c["cells"]]
     return j
 
 
@@ -844,6 +1119,9 @@ def case_from_json(j):
                     "insts": [[up(p) for p in inst] for inst in j["ex2"]["insts"]]}
     if "pts" in j:
         c["pts"] = [[up(p) for p in r] for r in j["pts"]]
+    if c["kind"] == "big":
+        c["via_pipe"] = bool(j.get("via_pipe"))
+        c["cells"] = [tuple(q) for q in j.get("cells", [])]
     return c
 
 
@@ -960,12 +1238,15 @@ def check(run: core.Run) -> int:
     for f in sorted((core.CORPUS / "C05").glob("*.json")):
         cases.append(case_from_json(json.load(open(f))["case"]))
     n_corpus = len(cases)
-    while len(cases) < n:
+    n_big = 40 if thorough else 10
+    while len(cases) < n - n_big:
         cases.append(gen_case(run.rng, thorough))
+    while len(cases) < n:                             # the large-magnitude regime (see "large images" above)
+        cases.append(gen_big_case(run.rng))
     terms = [term(c, fixed_len, fixed_box, fixed_box_pipe) for c in cases]
     # the Coq selectors on the witnesses and a sample of cases; the historic variants on the same sample
     n_extra = 400 if thorough else 80
-    sel_cases = [c for c in cases if c["s"] >= 1 and in_range(c) and c["insts"]]
+    sel_cases = [c for c in cases if c["kind"] != "big" and c["s"] >= 1 and in_range(c) and c["insts"]]
     sel_cases = sel_cases[:n_corpus + n_extra]
     hist_cases = [c for c in cases if c["kind"] in HIST_KINDS][:n_corpus + n_extra] if hist is not None else []
     terms += [sel_term(c) for c in sel_cases] + [term(c, False, False, False) for c in hist_cases]
@@ -989,6 +1270,8 @@ def check(run: core.Run) -> int:
             dist[key] = dist.get(key, 0) + 1
         nvis = sum(visible(inst[a]) and visible(inst[b]) and inst[a] != inst[b]
                    for inst in c["insts"] for a, b in c["edges"]) if in_range(c) else 0
+        if c["kind"] == "big":
+            dist["big_cells_compared"] = dist.get("big_cells_compared", 0) + len(c["cells"])
         if c["kind"] == "chk":
             dist["chk_raises" if m is None else "chk_in_domain"] = dist.get("chk_raises" if m is None else "chk_in_domain", 0) + 1
         if any(classify(inst, c["H"], c["W"]) == "outside" and sum(visible(p) for p in inst) >= 2 and
@@ -1030,7 +1313,11 @@ def check(run: core.Run) -> int:
         "rule": "case = (entry point, instances with NaN pattern, edge list, H, W, stride, sigma, flatten); "
                 "non-trivial = at least one edge of one animal with both endpoints visible and non-zero length, "
                 "and H*W >= 4; distinct by full case content",
-        "tolerance": {"atol": ATOL, "rtol": RTOL},
+        "tolerance": {"atol": ATOL, "rtol": RTOL,
+                      "domain": "flat atol/rtol: images <= 32 px, dyadic coordinates (float32 arithmetic of "
+                                "distance_to_edge nearly exact); kind big (700..1300 px, float32 endpoints): "
+                                "distance to the segment within 16 * 2^-24 * max(|p - src|, |dst - src|) of the exact one "
+                                "(rounding of the difference form), weights bracketed accordingly"},
         "fixed_box_detected": fixed_box, "fixed_len_detected": fixed_len,
         "fixed_box_pipe_detected": fixed_box_pipe,
     })
@@ -1041,7 +1328,9 @@ def check(run: core.Run) -> int:
                     "float32 tolerance",
                     "NaN coordinate = missing keypoint (None); float underflow/overflow is not modelled "
                     "(an edge shorter than ~1e-23 px makes torch.norm underflow to 0 and the field inf)"]
-    run.assumptions += ["coordinates are finite or NaN, |coordinates| << 1e9, sigma > 0, H, W >= 1; stride >= 1, "
+    run.assumptions += ["coordinates are finite or NaN, |coordinates| <~ 2000 px (tested: small dyadic <= 32 px and "
+                        "float32 coordinates in images up to 1100 x 1300; the rounding bound grows linearly with the "
+                        "magnitude), sigma > 0, H, W >= 1; stride >= 1, "
                         "n_samples >= 1 and edge node indices in range for every kept animal = in_domain "
                         "(outside it the code raises: kind chk); negative node indices (torch wraps them) outside"]
     return run.finish()
